@@ -776,7 +776,7 @@ package template
 //@   ensures memo: e.output == old(e.output) && e.derived == old(e.derived)
 
 //@ func (e *escaper) escapeTree(c context, node parse.Node, name string, line int) (r context, dname string)
-//@   serves C05 C06 C08
+//@   serves C01 C02 C05 C06 C08
 //@   option embedded nameSpace.esc
 //@   option allocates
 //@   option nopanic
@@ -855,7 +855,7 @@ package template
 //@   ensures editkeys: old(EDITKEYS(e)) && EDITMAPSDISTINCT(e) ==> EDITKEYS(e)
 
 //@ func (e *escaper) computeOutCtx(c context, t *template.Template) (r context)
-//@   serves C05 C08
+//@   serves C01 C02 C05 C06 C08
 //@   option embedded nameSpace.esc
 //@   option allocates
 //@   option modifies @ANALYSISMAPS @DERIVEDTREES
